@@ -200,6 +200,30 @@ def _run(repo, rep):
     c11.neg_rules(repo, rep, Evaluator(repo))
 
 
+def point_rule(repo, rep):
+    """the point formula of conform7 alone (used by C07: conform14 hands its epoch-propagated set to conform7, so the time-dependent
+    transformation is right only if this is)"""
+    from .. import symcheck as _sc
+    _sc.set_ranges({'x': (1.0e6, 5.0e7), 'y': (1.0e6, 5.0e7), 'z': (1.0e6, 5.0e7)})
+    f = repo.func('geodepy.transform', 'conform7')
+    w = where(f, f.node)
+    ps = [p.name for p in f.params]
+    base = 'R-FORMULA::geodepy/transform.py::conform7::'
+    orc = Oracle(ORACLE)
+    ev = Evaluator(repo)
+    T, SD = symbolic_sets(repo, ev)
+    val = ev.call_function(f, {ps[0]: Rat.sym('x'), ps[1]: Rat.sym('y'), ps[2]: Rat.sym('z'), ps[3]: T, ps[4]: NONE})
+    if not isinstance(val, Tup) or len(val.items) != 4:
+        rep.undecided('R-FORMULA', base + 'shape', w, 'conform7 does not evaluate to a 4-tuple')
+        return
+    s, rx, ry, rz = orc.call('units', sc=T.fields['sc'], qx=T.fields['rx'], qy=T.fields['ry'], qz=T.fields['rz']).items
+    ref = orc.call('similarity', x=Rat.sym('x'), y=Rat.sym('y'), z=Rat.sym('z'), tx=T.fields['tx'], ty=T.fields['ty'], tz=T.fields['tz'],
+                   s=s, rx=rx, ry=ry, rz=rz)
+    for i, nm in enumerate('xyz'):
+        check_equal(rep, 'R-FORMULA', base + nm, w, val.items[i], ref.items[i],
+                    '%s\' = t + (1 + sc/1e6) * R * x, R = [[1, rz, -ry], [-rz, 1, rx], [ry, -rx, 1]], rotations = radians(arc-seconds/3600)' % nm)
+
+
 def run(repo, rep):
     from ..symval import INPLACE_EVENTS
     del INPLACE_EVENTS[:]
